@@ -387,15 +387,30 @@ func (e *Env) optionsRules() {
 	// the returned value
 	var ret ssa.Value
 	nret := 0
+	sameValue := true
 	for _, b := range sf.Blocks {
 		for _, in := range b.Instrs {
 			if r, ok := in.(*ssa.Return); ok && len(r.Results) == 1 {
+				if emptyListReturn(sf, b) {
+					// if len(os) == 0 { return opts }: there is no option to apply on this path; it must hand out the
+					// same value as the main return (checked below)
+					if ret != nil && r.Results[0] != ret {
+						sameValue = false
+					}
+					if ret == nil {
+						ret = r.Results[0]
+					}
+					continue
+				}
+				if ret != nil && r.Results[0] != ret {
+					sameValue = false
+				}
 				ret = r.Results[0]
 				nret++
 			}
 		}
 	}
-	if nret != 1 || ret == nil {
+	if nret != 1 || ret == nil || !sameValue {
 		c.Undecided("options", who, e.P.Pos(no.Pos()), "not a single return")
 		return
 	}
@@ -549,6 +564,39 @@ func (e *Env) optionsRules() {
 		}
 	}
 	c.Check(okW, "options", fname(wl), e.P.Pos(wl.Pos()), "the returned option stores the requested language in options.lang", "the returned option does not store the requested language")
+}
+
+// emptyListReturn: block b of fn (which ends in a return) is entered only through the true edge of the test
+// len(<first parameter>) == 0.
+func emptyListReturn(fn *ssa.Function, b *ssa.BasicBlock) bool {
+	if len(fn.Params) == 0 || len(b.Preds) != 1 {
+		return false
+	}
+	p := b.Preds[0]
+	if len(p.Instrs) == 0 || len(p.Succs) != 2 || p.Succs[0] != b || p.Succs[1] == b {
+		return false
+	}
+	iff, ok := p.Instrs[len(p.Instrs)-1].(*ssa.If)
+	if !ok {
+		return false
+	}
+	cmp, ok := iff.Cond.(*ssa.BinOp)
+	if !ok || cmp.Op != token.EQL {
+		return false
+	}
+	isLen := func(v ssa.Value) bool {
+		call, ok := v.(*ssa.Call)
+		if !ok || len(call.Call.Args) != 1 || call.Call.Args[0] != ssa.Value(fn.Params[0]) {
+			return false
+		}
+		bi, ok := call.Call.Value.(*ssa.Builtin)
+		return ok && bi.Name() == "len"
+	}
+	isZero := func(v ssa.Value) bool {
+		k, ok := v.(*ssa.Const)
+		return ok && k.Value != nil && k.Value.Kind() == constant.Int && constant.Sign(k.Value) == 0
+	}
+	return (isLen(cmp.X) && isZero(cmp.Y)) || (isZero(cmp.X) && isLen(cmp.Y))
 }
 
 func fieldVarOf(fa *ssa.FieldAddr) *types.Var {
